@@ -80,6 +80,10 @@ def programs(draw, tier):
         if 'at_off' in ch:
             ch['at'] = start + ch.pop('at_off')
     body = [sleep() for _ in range(draw(st.integers(0, 2)))]
+    if draw(st.integers(0, 5)) == 0:
+        # the owner cancels the subject and then aborts the whole scope in the same turn / a little later
+        body = [sleep() for _ in range(draw(st.integers(0, 1)))] + [{'op': 'cancel', 'ref': 's0', 'token': [555]}] + \
+               [{'op': 'instant'} for _ in range(draw(st.integers(0, 1)))] + [{'op': 'raise', 'eid': 99, 'cls': 'K'}]
     r0 = {'name': 'r0', 'steps': [
         {'op': 'scope', 'name': 'S', 'children': children, 'body': body, 'catch': True},
         {'op': 'status', 'ref': 's0'}, {'op': 'await_task', 'ref': 's0'},
@@ -179,7 +183,8 @@ class C06(Check):
     def judge(self, out, case, it, oc, exc, faults):
         prog = case['prog']
         ctx = ' faults=%r' % (faults,)
-        subject_fails = any(s['op'] == 'raise' for s in find_act(prog, 's0')['steps'])
+        subject_fails = any(s['op'] == 'raise' for s in find_act(prog, 's0')['steps']) or \
+            any(s['op'] == 'raise' for s in prog['roots'][-2]['steps'][0]['body'])    # ... or the scope body
         if oc != 'ok':
             if oc == 'exc':
                 out.fail('run_outcome', 'exc:' + type(exc).__name__, 'run() raised %r;%s' % (exc, ctx))
@@ -305,6 +310,14 @@ class C06(Check):
                     out.fail('cancel_running', 'not_acted_on:' + nth, '%s: cancel() at t=%r (seq %s) while '
                              'suspended was not delivered in that time step;%s' % (name, c[1], c[0], ctx))
                     break
+            if live and live[0][2] == 'RUNNING' and not excd and any(
+                    s['op'] == 'raise' for s in prog['roots'][-2]['steps'][0]['body']):
+                # the owner cancelled a *running* task and aborted the scope before the cancellation could be
+                # delivered: the synchronous close may win (outcome closed) - only agreement is required
+                outcomes = {e[5][0] for e in log if e[3] == 'got_exc' and self._awaits(prog, e[1], e[2], name)}
+                if len(outcomes) > 1:
+                    out.fail('awaiters', 'disagree', 'awaiters of %s saw %r;%s' % (name, sorted(outcomes), ctx))
+                expect = None
             # nothing of the task runs after the cancellation was delivered / after it ended
             if live and not created_cancel and not subject_fails and not has_cleanup:
                 t_cancel = live[0][1]
